@@ -45,4 +45,23 @@ theorem mem_of_get {m : FMap β} {k : Nat} {v : β} (h : get m k = some v) : (k,
     · simp [ha] at h; subst ha; subst h; simp
     · simp [ha] at h; exact List.mem_cons_of_mem _ (ih h)
 
+theorem mem_keys_iff (m : FMap β) (k : Nat) : k ∈ m.keys ↔ (m.get k).isSome = true := by
+  induction m with
+  | nil => simp [keys]
+  | cons p r ih =>
+    obtain ⟨a, w⟩ := p
+    simp only [keys, List.map_cons, List.mem_cons, get_cons] at ih ⊢
+    by_cases ha : a = k
+    · simp [ha]
+    · simp only [ha, ↓reduceIte]
+      rw [← ih]
+      constructor
+      · rintro (e | e)
+        · exact absurd e.symm ha
+        · exact e
+      · exact Or.inr
+
+theorem mem_keys_of_get {m : FMap β} {k : Nat} {v : β} (h : get m k = some v) : k ∈ m.keys :=
+  (mem_keys_iff m k).mpr (by simp [h])
+
 end Nebula.HostMap.FMap
